@@ -19,3 +19,22 @@ Definition r_slice (dlen lo hi : Z) : outcome (Z * Z) :=
   if (lo <=? hi) && (hi <=? dlen) then Ok (lo, hi) else Panic.
 (* Result::unwrap *)
 Definition r_unwrap {A} (x : outcome A) : outcome A := match x with Err _ => Panic | o => o end.
+
+(* ---- operations emitted by tools/translate_bitmask.py ------------------------------------------------------------
+   Unsigned values are their numbers, signed values (iN) are signed integers; the bitwise operations on iN act on the
+   two's complement pattern [wrapu w] and read the result back with [sw w].  Shifts panic (debug build) when the amount
+   is not in 0..w-1 and otherwise drop the bits that leave the type; `>>` on iN is arithmetic. *)
+Definition r_mul (w a b : Z) : outcome Z := if a * b <? 2 ^ w then Ok (a * b) else Panic.
+Definition shift_ok (w s : Z) : bool := (0 <=? s) && (s <? w).
+Definition r_shl (w a s : Z) : outcome Z := if shift_ok w s then Ok ((a * 2 ^ s) mod 2 ^ w) else Panic.
+Definition r_shr (w a s : Z) : outcome Z := if shift_ok w s then Ok (Z.shiftr a s) else Panic.
+Definition i_add (w a b : Z) : outcome Z := chk_s w (a + b).
+Definition i_sub (w a b : Z) : outcome Z := chk_s w (a - b).
+Definition i_mul (w a b : Z) : outcome Z := chk_s w (a * b).
+Definition i_neg (w a : Z) : outcome Z := chk_s w (- a).
+Definition i_shl (w a s : Z) : outcome Z := if shift_ok w s then Ok (sw w (a * 2 ^ s)) else Panic.
+Definition i_shr (w a s : Z) : outcome Z := if shift_ok w s then Ok (Z.shiftr a s) else Panic.
+Definition i_and (w a b : Z) : Z := sw w (Z.land (wrapu w a) (wrapu w b)).
+Definition i_or (w a b : Z) : Z := sw w (Z.lor (wrapu w a) (wrapu w b)).
+Definition i_xor (w a b : Z) : Z := sw w (Z.lxor (wrapu w a) (wrapu w b)).
+Definition i_not (w a : Z) : Z := sw w (Z.lxor (2 ^ w - 1) (wrapu w a)).
